@@ -1609,7 +1609,17 @@ func doIso(polluter string, conc int) interface{} {
 		close(stop)
 		wg.Wait()
 	}
-	return J{"solo": solo, "after": after, "conc_same": same}
+	// the bytes Encode hands back belong to the caller: a later Encode (another rollout's result, on any worker) must not
+	// change them
+	owned := true
+	if a, err := luamanager.Encode(lua.LString(strings.Repeat("rollout-a;", 40))); err == nil {
+		keep := string(a)
+		for i := 0; i < 4; i++ {
+			_, _ = luamanager.Encode(lua.LString(strings.Repeat("ROLLOUT-B!", 40+i)))
+		}
+		owned = string(a) == keep
+	}
+	return J{"solo": solo, "after": after, "conc_same": same, "owned": owned}
 }
 
 func emitIso(c *Ctx, polluter string, conc int) {
